@@ -272,6 +272,14 @@ def norm(x):
     return x if c is None else c
 
 
+def fold(x):
+    """constant-fold only: python int when x simplifies to a numeral, else x unchanged
+    (z3.simplify rewrites sign extensions into bit-level concatenations, so the
+    simplified form is not kept)"""
+    c = concrete_of(z3.simplify(x))
+    return x if c is None else c
+
+
 class Stats:
     def __init__(self):
         self.paths = 0
